@@ -30,7 +30,9 @@ def compile_under_seeds(items, seeds):
     procs = []
     for s in seeds:
         env = dict(os.environ)
-        env["PYTHONHASHSEED"] = str(s)
+        env["PYTHONHASHSEED"] = str(s % 1000)
+        if s >= 1000:
+            env["VERIF_PERMSET"] = str(s // 1000)      # seed 1000*k + h: hash seed h, adversarial set order k
         out = os.path.join(d, "out_%d.json" % s)
         procs.append((s, out, subprocess.Popen([sys.executable, os.path.join(vlib.VERIF, "tools", "seedworker.py"), inp, out], env=env,
                                                stdout=subprocess.PIPE, stderr=subprocess.STDOUT)))
@@ -57,7 +59,8 @@ def run(ctx):
     for _ in range(50 if q else 400):
         y, meta = specgen_metrics.gen(rng)
         items.append({"yaml": y, "kind": "generated-metrics", "arch": True, "syms": {}})
-    seeds = list(range(8 if q else 32))
+    # hash seeds, plus forced pseudo-random iteration orders of the compiler's sets (tools/seedworker.py VERIF_PERMSET)
+    seeds = list(range(6 if q else 24)) + [1000 * k for k in range(1, 5 if q else 17)]
     res = compile_under_seeds(items, seeds)
     cases = []
     da_items = []
@@ -120,7 +123,7 @@ def run(ctx):
     ctx.coverage.update({
         "programs": stats["distinct_texts"], "executions": len(cases), "disagreements_checked": bad, "evaluations": len(cases) + len(da),
         "distinct_nontrivial": stats["distinct_texts"], "population": stats, "hash_seeds": seeds,
-        "rule": "shape-partitioned, occupancy/flatten, cascade, accelerator and generated metrics specifications compiled in worker processes under PYTHONHASHSEED 0..7 (quick) / 0..31; "
+        "rule": "shape-partitioned, occupancy/flatten, cascade, accelerator and generated metrics specifications compiled in worker processes under PYTHONHASHSEED 0..5 (quick) / 0..23 and under 4 / 16 forced pseudo-random iteration orders of every set the compiler builds with set(); "
                 "every distinct text per specification is checked by the verified da checker and executed on identical inputs; each process also compiles every specification twice",
         "samples": [{"kind": c.meta, "result": c.raw} for c in cases if c.meta["nvariants"] > 1][:3] or [{"kind": cases[0].meta, "result": cases[0].raw}],
         "trusted_base": ["Coq 8.16.1 kernel + VM", "Model/Rt.v + Model/Interp.v", "tools/py2coq.py", "Model/Closed.v da (proved sound and complete)", "sampling of hash seeds (not exhaustive over iteration orders)"],
@@ -132,7 +135,7 @@ def replay(ctx, rep):
     """Recompile the specification under the hash seeds and re-run every distinct text on the recorded inputs."""
     r = rep["replay"]
     it = {"yaml": r["yaml"], "arch": (r.get("meta") or {}).get("kind", "").startswith(("generated-metrics", "accel"))}
-    seeds = list(range(8))
+    seeds = list(range(6)) + [1000 * k for k in range(1, 5)]
     res = compile_under_seeds([it], seeds)
     outs = [res[s][0] for s in seeds]
     print("outcomes per seed:", [o.get("error", "ok") for o in outs])
